@@ -294,6 +294,23 @@ func vMkErr(kind string, in *vInst) (error, bool) {
 		return context.DeadlineExceeded, false
 	case "wother":
 		return fmt.Errorf("wrapped: %w", errors.New("verif: inner failure")), false
+	case "subctx", "wsubctx":
+		// the Canceled of a sub-context the runnable derived and cancelled itself
+		base := context.Background()
+		if in != nil {
+			base = in.ctx
+		}
+		sub, c := context.WithCancel(base)
+		c()
+		if kind == "subctx" {
+			return sub.Err(), false
+		}
+		return fmt.Errorf("upstream: %w", sub.Err()), false
+	case "wsubdl":
+		sub, c := context.WithDeadline(context.Background(), time.Now().Add(-time.Second))
+		defer c()
+		<-sub.Done()
+		return fmt.Errorf("upstream: %w", sub.Err()), false
 	case "own":
 		if in != nil {
 			return in.ctx.Err(), false
@@ -448,7 +465,7 @@ type vGen struct {
 }
 
 var vNames = []string{"a", "b", "c", "d", "e_1"}
-var vRetKinds = []string{"nil", "other", "ctx", "wctx", "wwctx", "deadline", "wother", "own", "own", "panic"}
+var vRetKinds = []string{"nil", "other", "ctx", "wctx", "wwctx", "deadline", "wother", "own", "own", "panic", "subctx", "wsubctx", "wsubdl"}
 
 func (g *vGen) pickNames(s *vSim, parent *node) []string {
 	r := g.r
